@@ -30,7 +30,7 @@ LATIN = ("iso-8859-1", "latin-1", "latin1", "iso8859-1", "l1")
 
 
 class Escapes:
-    def __init__(self, repo, funcs, self_classes=None, attr_gens=None, dispatch_ok=()):
+    def __init__(self, repo, funcs, self_classes=None, attr_gens=None, dispatch_ok=(), recv_classes=None):
         """funcs: {key: (rel, qualname)} ; key is how callers name it: 'name' for module functions, 'Cls.meth'"""
         self.repo = repo
         self.funcs = dict(funcs)
@@ -42,6 +42,8 @@ class Escapes:
         self.self_classes = self_classes or {}
         self.attr_gens = attr_gens or {}
         self.dispatch_ok = tuple(dispatch_ok)
+        self.recv_classes = recv_classes or {}   # receiver name (last attribute / variable) -> classes
+        self.unresolved_next = set()
         self.hier = {}
         for rel in set(self.rel.values()) | {"ioflo/aio/http/httping.py"}:
             try:
@@ -183,11 +185,22 @@ class Escapes:
                         self.sites[k].append((n.lineno, e, "next(%s) -> %s" % (n.args[0].id, g)))
                     acc |= self.summary[g]
                 return acc
-            if f.id == "next" and n.args and isinstance(n.args[0], ast.Attribute) and n.args[0].attr in self.attr_gens:
-                g = self.attr_gens[n.args[0].attr]
-                for e in self.summary[g]:
-                    self.sites[k].append((n.lineno, e, "next(.%s) -> %s" % (n.args[0].attr, g)))
-                return set(self.summary[g])
+            if f.id == "next" and n.args and isinstance(n.args[0], ast.Attribute):
+                owner = k.split(".")[0] if "." in k else ""
+                g = self.attr_gens.get("%s.%s" % (owner, n.args[0].attr), self.attr_gens.get(n.args[0].attr))
+                if g is not None:
+                    gl = g if isinstance(g, (list, tuple)) else [g]
+                    acc = set()
+                    for g1 in gl:
+                        for e in self.summary[g1]:
+                            self.sites[k].append((n.lineno, e, "next(.%s) -> %s" % (n.args[0].attr, g1)))
+                        acc |= self.summary[g1]
+                    return acc
+            if f.id == "next":
+                # a generator the analysis cannot name: anything may come out of it
+                self.unresolved_next.add("%s: next(%s)" % (k, ast.unparse(n.args[0]) if n.args else ""))
+                self.sites[k].append((n.lineno, "Exception", "next() of an unnamed generator"))
+                return {"Exception"}
         if isinstance(f, ast.Attribute):
             if f.attr == "decode":
                 codec = n.args[0].value if n.args and isinstance(n.args[0], ast.Constant) else "utf-8"
@@ -229,6 +242,12 @@ class Escapes:
                     return cands if len(cands) > 1 else cands[0]
             if f.attr in self.funcs and isinstance(f.value, ast.Name):      # module.func
                 return f.attr
+            # obj.method(...) with a declared receiver: `self.eventSource.parse()`, `requestant.parse()`
+            rn = f.value.attr if isinstance(f.value, ast.Attribute) else (f.value.id if isinstance(f.value, ast.Name) else None)
+            if rn in self.recv_classes:
+                cands = [c + "." + f.attr for c in self.recv_classes[rn] if c + "." + f.attr in self.funcs]
+                if cands:
+                    return cands if len(cands) > 1 else cands[0]
             # obj.method(...) where the method name is unique among the functions under contract
             cands = [x for x in self.funcs if x.endswith("." + f.attr)]
             if cands and not (isinstance(f.value, ast.Name) and f.value.id == "self"):
